@@ -427,12 +427,44 @@ int main(int argc, char** argv) {
                 ctx.count("decoy_channel_configs");
             }
 
-            // ---------------- run both
-            t.MMIOWrite(0x202, 0x8000);
-            if (t.MMIORead(0x200) & 0x8000) {
-                fail("irq-ack:bit15-stays", "ICU pending bit 15 still set after acknowledge");
-                break;
+            // ---------------- now and then the transfer is first attempted while the host's external-memory callbacks
+            // fail (a bus-fault report thrown from the very first access): the attempt is abandoned by the exception, the
+            // callbacks are repaired, and the SAME channel is started again - that start must perform the whole transfer.
+            // (only without bursts: a fault in the middle of a burst legitimately leaves words queued)
+            if (p.ext && BurstLen(p.burst[p.ahbm_ch]) == 1 && g.chance(1, 6)) {
+                struct BusFault {};
+                Teakra::AHBMCallback bad;
+                bad.read8 = [](u32) -> u8 { throw BusFault{}; };
+                bad.read16 = [](u32) -> u16 { throw BusFault{}; };
+                bad.read32 = [](u32) -> u32 { throw BusFault{}; };
+                bad.write8 = [](u32, u8) { throw BusFault{}; };
+                bad.write16 = [](u32, u16) { throw BusFault{}; };
+                bad.write32 = [](u32, u32) { throw BusFault{}; };
+                t.SetAHBMCallback(bad);
+                bool faulted = false;
+                try {
+                    t.MMIOWrite(0x1DE, 0x40C0);
+                } catch (const BusFault&) {
+                    faulted = true;
+                } catch (...) {
+                    faulted = true;
+                }
+                t.SetAHBMCallback(cb);
+                ctx.count(faulted ? "starts_abandoned_by_callback_fault" : "fault_attempts_without_external_access");
+                if (faulted)
+                    ctx.seen("nt", "restart-after-fault:" + kcls);
             }
+            // ---------------- run both (the previous completion is acknowledged two times out of three: a completion must
+            // raise its interrupt also while the request bit of an earlier one is still pending)
+            const bool ack_first = g.chance(1, 2);
+            if (ack_first) {
+                t.MMIOWrite(0x202, 0x8000);
+                if (t.MMIORead(0x200) & 0x8000) {
+                    fail("irq-ack:bit15-stays", "ICU pending bit 15 still set after acknowledge");
+                    break;
+                }
+            } else if (t.MMIORead(0x200) & 0x8000)
+                ctx.count("starts_with_request_still_pending");
             R.reads.clear();
             R.writes.clear();
             g_icu_triggers = 0;
@@ -569,11 +601,14 @@ int main(int argc, char** argv) {
                 M.ext = R.mem; // outside the statement: continue from what the real machine produced
             }
 
-            // acknowledge; the bit must clear
-            t.MMIOWrite(0x202, 0x8000);
-            if (t.MMIORead(0x200) & 0x8000) {
-                fail("irq-ack:bit15-stays", "ICU pending bit 15 still set after acknowledge");
-                break;
+            // acknowledge (two times out of three; otherwise the next completion arrives with the request still pending);
+            // the bit must clear
+            if (g.chance(2, 3)) {
+                t.MMIOWrite(0x202, 0x8000);
+                if (t.MMIORead(0x200) & 0x8000) {
+                    fail("irq-ack:bit15-stays", "ICU pending bit 15 still set after acknowledge");
+                    break;
+                }
             }
 
             // ---------------- bookkeeping
